@@ -15,7 +15,7 @@
 #ifndef SCEN
 #define SCEN 1
 #endif
-#define NI 4
+#define NI 5
 typedef struct { parsec_list_item_t super; int pad; int prio; } item_t;
 #define OFF offsetof(item_t, prio)
 parsec_list_t L;
@@ -25,6 +25,7 @@ parsec_list_item_t *r[4];
 #define B (&I[1].super)
 #define C (&I[2].super)
 #define D (&I[3].super)
+#define E (&I[4].super)
 #define GHOST (&L.ghost_element)
 
 static void list_init(void) { GHOST->list_next = GHOST; GHOST->list_prev = GHOST; L.atomic_lock = PARSEC_ATOMIC_UNLOCKED; }
@@ -55,6 +56,32 @@ void setup(void) { list_init(); parsec_list_nolock_push_back(&L, A); parsec_list
                    C->list_next = D; D->list_prev = C; D->list_next = C; C->list_prev = D; }
 void thread0(void) { r[0] = parsec_list_unchain(&L); }
 void thread1(void) { parsec_list_chain_back(&L, C); }
+#elif SCEN == 7 /* [A]  T0: dequeue_chain_front(ring C,D)   T1: dequeue_push_front(B)   (two insertions racing at the head) */
+void setup(void) { list_init(); parsec_list_nolock_push_back(&L, A);
+                   C->list_next = D; D->list_prev = C; D->list_next = C; C->list_prev = D; }
+void thread0(void) { parsec_dequeue_chain_front(&L, C); }
+void thread1(void) { parsec_dequeue_push_front(&L, B); }
+#define INSERT_RACE 1
+#elif SCEN == 8 /* [A]  T0: fifo_chain(ring C,D) = list_chain_back   T1: fifo_push(B) = list_push_back   (racing at the tail) */
+void setup(void) { list_init(); parsec_list_nolock_push_back(&L, A);
+                   C->list_next = D; D->list_prev = C; D->list_next = C; C->list_prev = D; }
+void thread0(void) { parsec_fifo_chain(&L, C); }
+void thread1(void) { parsec_fifo_push(&L, B); }
+#define INSERT_RACE 1
+#elif SCEN == 9 /* [A(5),B(1)]  T0: chain_sorted(ring C(4),D(2))   T1: push_sorted(E(3)) */
+void setup(void) { list_init(); I[0].prio = 5; I[1].prio = 1; I[2].prio = 4; I[3].prio = 2; I[4].prio = 3;
+                   parsec_list_nolock_push_back(&L, A); parsec_list_nolock_push_back(&L, B);
+                   C->list_next = D; D->list_prev = C; D->list_next = C; C->list_prev = D; }
+void thread0(void) { parsec_list_chain_sorted(&L, C, OFF); }
+void thread1(void) { parsec_list_push_sorted(&L, E, OFF); }
+#define INSERT_RACE 1
+#elif SCEN == 10 /* [A]  T0: list_chain_front(ring C,D)   T1: list_chain_front(singleton B)   (two chains racing at the head) */
+void setup(void) { list_init(); parsec_list_nolock_push_back(&L, A);
+                   C->list_next = D; D->list_prev = C; D->list_next = C; C->list_prev = D;
+                   B->list_next = B; B->list_prev = B; }
+void thread0(void) { parsec_list_chain_front(&L, C); }
+void thread1(void) { parsec_list_chain_front(&L, B); }
+#define INSERT_RACE 1
 #endif
 
 static int held(parsec_list_item_t *it) { int n = 0; for (int k = 0; k < 4; k++) if (r[k] == it) n++; return n; }
@@ -62,7 +89,8 @@ static int idx(volatile parsec_list_item_t *p) { for (int k = 0; k < NI; k++) if
 
 void check(void)
 {
-    int in[NI] = {0, 0, 0, 0}, pos[NI] = {-1, -1, -1, -1}, n = 0, ok = 1;
+    int in[NI], pos[NI], n = 0, ok = 1;
+    for (int k = 0; k < NI; k++) { in[k] = 0; pos[k] = -1; }
     volatile parsec_list_item_t *p = GHOST->list_next, *prev = GHOST;
     for (; p != GHOST && n < NI + 1; prev = p, p = p->list_next, n++) {
         int k = idx(p);
@@ -71,6 +99,48 @@ void check(void)
     }
     VASSERTM(ok && p == GHOST && GHOST->list_prev == prev, "list well formed: forward and back links agree, ends at the ghost");
     VASSERTM(L.atomic_lock == PARSEC_ATOMIC_UNLOCKED, "lock released");
+#ifdef INSERT_RACE
+    /* GENERAL oracle for racing insertions (nothing is removed): an independent BACKWARD traversal (list_prev links only)
+     * must give exactly the reverse of the forward traversal, every item that was in the list or was inserted is present
+     * exactly once in both directions, items that were linked before (old list, argument ring) keep their relative order,
+     * ring elements stay contiguous (unsorted chains), sorted insertions leave a non-increasing list. */
+    {
+        int bin[NI], bpos[NI], bn = 0, bok = 1;
+        for (int k = 0; k < NI; k++) { bin[k] = 0; bpos[k] = -1; }
+        volatile parsec_list_item_t *q = GHOST->list_prev;
+        for (; q != GHOST && bn < NI + 1; q = q->list_prev, bn++) {
+            int k = idx(q);
+            if (k < 0) { bok = 0; break; }
+            bin[k]++; bpos[k] = bn;
+        }
+        VASSERTM(bok && q == GHOST, "backward traversal (list_prev only) reaches the ghost through known items");
+        VASSERTM(bn == n, "forward and backward traversals have the same length");
+        for (int k = 0; k < NI; k++) {
+            int expected = (k < 4) || (SCEN == 9);
+            VASSERTM(in[k] == expected, "forward: every old and every inserted item present exactly once, nothing else");
+            VASSERTM(bin[k] == expected, "backward: every old and every inserted item present exactly once, nothing else");
+            if (expected) VASSERTM(bpos[k] == n - 1 - pos[k], "backward order is exactly the reverse of the forward order");
+        }
+        VASSERTM(pos[2] < pos[3], "ring order kept: C before D");
+#if SCEN == 9
+        VASSERTM(pos[0] < pos[1], "old list order kept: A before B");
+        { int sorted = 1; volatile parsec_list_item_t *w = GHOST->list_next;
+          for (int s = 0; s + 1 < NI && w != GHOST && w->list_next != GHOST; s++, w = w->list_next)
+              if (((item_t*)w)->prio < ((item_t*)w->list_next)->prio) sorted = 0;
+          VASSERTM(sorted, "sorted insertions leave the list in non-increasing priority order"); }
+        if (pos[4] == 2) VWITNESS("sorted race completed: A C E D B");
+#else
+        VASSERTM(pos[3] == pos[2] + 1, "ring elements contiguous: D directly after C");
+#if SCEN == 8
+        VASSERTM(pos[0] == 0, "insertions at the tail: the old item stays first");
+#else
+        VASSERTM(pos[0] == n - 1, "insertions at the head: the old item stays last");
+#endif
+        if (pos[1] < pos[2]) VWITNESS("B ends up before the ring");
+        if (pos[1] > pos[3]) VWITNESS("B ends up after the ring");
+#endif
+    }
+#endif
 #if SCEN == 1
     VASSERTM(in[0] + held(A) == 1 && in[1] + held(B) == 1 && in[2] + held(C) == 1, "A, B, C exactly once (list xor one holder)");
     VASSERTM(r[0] == A && r[1] == B, "FIFO order: the two pops return A then B whatever the interleaving (C is appended behind them)");
